@@ -160,30 +160,46 @@ pub fn check_fix_text(text: &str) -> Result<FixInfo, Violation> {
     })
 }
 
-/// rename every binder that shadows an enclosing binder of the same name
-pub fn alpha_rename(a: &RAst, scope: &mut Vec<(String, String)>, counter: &mut usize) -> RAst {
-    let lookup = |n: &String, scope: &Vec<(String, String)>| -> String {
-        scope.iter().rev().find(|(o, _)| o == n).map(|(_, r)| r.clone()).unwrap_or_else(|| n.clone())
+/// Rename binders that shadow an enclosing binder of the same name.
+///
+/// Renaming is meaning-preserving for a fixed-point binder always (fixed-point names are
+/// substituted, they are not diagram variables), and for a quantifier binder only when no
+/// enclosing FIXED-POINT name occurs free in the quantifier's body: the statement says that
+/// "variables quantified inside T also range over the current value of X", i.e. a quantifier
+/// on `b` deliberately captures the dependence of X's value on `b`, so `forall b # X` and
+/// `forall b' # X` differ.  Such quantifiers are left alone.
+/// scope entries: (original name, new name, is_fixed_point_binder)
+pub fn alpha_rename(a: &RAst, scope: &mut Vec<(String, String, bool)>, counter: &mut usize) -> RAst {
+    let lookup = |n: &String, scope: &Vec<(String, String, bool)>| -> String {
+        scope.iter().rev().find(|(o, _, _)| o == n).map(|(_, r, _)| r.clone()).unwrap_or_else(|| n.clone())
     };
     match a {
         RAst::Var(n) => RAst::Var(lookup(n, scope)),
         RAst::Quant(ex, ns, b) => {
             let mark = scope.len();
+            // does the body mention (free) a name whose innermost enclosing binder is a fixed point?
+            let mut body_fv = b.free_vars();
+            for n in ns {
+                body_fv.remove(n);
+            }
+            let captures_fix_value = body_fv
+                .iter()
+                .any(|v| scope.iter().rev().find(|(o, _, _)| o == v).map(|e| e.2).unwrap_or(false));
             let mut new_names = Vec::new();
             for n in ns {
-                if let Some((_, r)) = scope[mark..].iter().find(|(o, _)| o == n) {
+                if let Some((_, r, _)) = scope[mark..].iter().find(|(o, _, _)| o == n) {
                     // repeated in the same list: same binder
                     new_names.push(r.clone());
                     continue;
                 }
-                let shadows = scope[..mark].iter().any(|(o, _)| o == n);
-                let r = if shadows {
+                let shadows = scope[..mark].iter().any(|(o, _, _)| o == n);
+                let r = if shadows && !captures_fix_value {
                     *counter += 1;
                     format!("{}_r{}", n.replace('\'', "p"), counter)
                 } else {
                     n.clone()
                 };
-                scope.push((n.clone(), r.clone()));
+                scope.push((n.clone(), r.clone(), false));
                 new_names.push(r);
             }
             let body = alpha_rename(b, scope, counter);
@@ -191,14 +207,14 @@ pub fn alpha_rename(a: &RAst, scope: &mut Vec<(String, String)>, counter: &mut u
             RAst::Quant(*ex, new_names, Box::new(body))
         }
         RAst::Fix(n, g, b) => {
-            let shadows = scope.iter().any(|(o, _)| o == n);
+            let shadows = scope.iter().any(|(o, _, _)| o == n);
             let r = if shadows {
                 *counter += 1;
                 format!("{}_r{}", n.replace('\'', "p"), counter)
             } else {
                 n.clone()
             };
-            scope.push((n.clone(), r.clone()));
+            scope.push((n.clone(), r.clone(), true));
             let body = alpha_rename(b, scope, counter);
             scope.pop();
             RAst::Fix(r, *g, Box::new(body))
@@ -230,6 +246,10 @@ pub fn check_scoping(text: &str) -> Check {
     // free names that collide with a binder are renamed too? no: only shadowing binders are.
     let mut counter = 0usize;
     let renamed = alpha_rename(&parsed.ast, &mut Vec::new(), &mut counter);
+    if counter == 0 {
+        // nothing could be renamed soundly
+        return Ok(());
+    }
     let text2 = rprint::plain(&renamed);
     let names1 = rlex::identifiers(&parsed.tokens);
     let p2 = rparse::parse_text(text2.as_bytes()).map_err(|e| v(format!("HARNESS: renamed text: {}", e)))?;
@@ -391,7 +411,7 @@ pub fn run(ctx: &mut Ctx) -> Result<(), Violation> {
     ctx.stage("readme-identities", true, (st, None))?;
 
     let kmax = ctx.tier.pick(3usize, 4usize);
-    let cases = ctx.tier.pick(12_000, 200_000);
+    let cases = ctx.tier.pick(40_000, 400_000);
     let r = par_random(ctx, "random-monotone-bodies", cases, 260, |tape, st| {
         let mut t = Tape::new(tape);
         // k = other variables; thorough uses k = 4 for a fraction (65536 candidates each)
@@ -431,7 +451,7 @@ pub fn run(ctx: &mut Ctx) -> Result<(), Violation> {
 
     // scoping on general formulas (fixed point anywhere, shadowing made likely by a small name pool;
     // formulas without shadowing are counted as discarded)
-    let cases = ctx.tier.pick(60_000, 1_000_000);
+    let cases = ctx.tier.pick(200_000, 2_000_000);
     let r = par_random(ctx, "scoping", cases, 260, |tape, st| {
         let mut t = Tape::new(tape);
         let mut cfg = Cfg::standard(3, 2 + t.choose(4));
